@@ -174,8 +174,8 @@ def run(ctx):
                 "what": "crash inside the log append of this statement: recovered state is not a row-prefix state, "
                         "or recovery failed, or later statements misbehave"}
 
-    for i in sm[:2]:
+    for i in sm[:1]:
         out["spec_violations"].append(describe(i, "SM"))
-    for i in mm[:2]:
+    for i in mm[:1]:
         out["model_mismatches"].append(describe(i, "MM"))
     return out
